@@ -239,6 +239,30 @@ def r4(ctx, R, g, call, loop, line_var):
         R.ok("C06.R4", g.short, "preprocessor lines skipped", loc(g, call))
     else:
         R.violation("C06.R4", g.short, "preprocessor lines skipped", loc(g, call), "lines starting with # are searched: macro names in directives are returned as references to Fortran entities")
+    # (c') no line is skipped on a case-sensitive test against the name
+    from .c13 import explicit_norm
+
+    name_vars = set()
+    for rx_ in ctx.p.inline:
+        if rx_.func is g and rx_.holes:
+            for n_ in ast.walk(rx_.holes[0].expr):
+                if isinstance(n_, ast.Name) and n_.id != "re":
+                    name_vars.add(n_.id)
+    outer = line_var[2]
+    for st_ in ast.walk(outer):
+        if not (isinstance(st_, ast.If) and any(isinstance(b, ast.Continue) for b in st_.body)) or st_.lineno >= loop.lineno:
+            continue
+        for cmp_ in (n_ for n_ in ast.walk(st_.test) if isinstance(n_, ast.Compare) and len(n_.ops) == 1):
+            sides = [cmp_.left, cmp_.comparators[0]]
+            mine = [x for x in sides if isinstance(x, ast.Name) and x.id in name_vars]
+            if not mine:
+                continue
+            other = sides[1] if sides[0] is mine[0] else sides[0]
+            kk = f"line filter {unparse(cmp_)[:60]}"
+            if explicit_norm(mine[0], ctx, g, cmp_) and not explicit_norm(other, ctx, g, cmp_):
+                R.violation("C06.R4", g.short, kk, loc(g, cmp_), f"lines are skipped when `{unparse(cmp_)}` - the name is lower-cased, `{unparse(other)}` is the text as written: occurrences spelled with upper-case letters (`Total`, `TOTAL`) are never searched, so references miss them and rename leaves them behind")
+            else:
+                R.ok("C06.R4", g.short, kk, loc(g, cmp_), "pre-filter compares like with like")
     # (d) every record is appended under a non-None resolution and the match flag
     appends = [c for c in calls_in(loop) if isinstance(c.func, ast.Attribute) and c.func.attr == "append" and c.args and isinstance(c.args[0], (ast.List, ast.Tuple)) and len(c.args[0].elts) == 3]
     flag = None
